@@ -167,6 +167,39 @@ theorem cache_sound_from (w : World) (hw : w.wf) (c : Caches) (hA : ArrayInv w c
     runOps true w c ops = runOps false w c ops :=
   runOps_sound hw ops c hreq hA hP
 
+/-- **The key must be exact** (converse of `cache_sound`; mirrors C05 `keyed_cache_approx_key_unsound`).
+Replace the hit test of `ARRAY_CACHE` (`stored hash == current hash`) by *any* relation `hit` between a
+stored entry and a request — bounds compared with `np.allclose`, rounded or down-cast to `float32`, a
+tuple without one of its components, ….  If `hit` identifies the entry stored for a request `r₁`
+(`storedEntry w r₁ a₁` = its hash tuple with the wildcards of `bounds_for_cache`, and its array) with a
+request `r₂` whose answer without a cache id is different, then the 2-request history `[r₁, r₂]` under
+one cache id, started on empty caches, returns `[a₁, a₁]`: the second answer is not the uncached one.
+(`hv₂`: the `ValueError` for `n < 1` is raised before the cache is consulted.)  The coded test is the
+instance `hit := ArrayEntry.matches` (`hit_test_as_coded`), for which `cache_sound` shows that no such
+pair `r₁, r₂` exists.  The correspondence families look for such pairs on the real caches: one float
+component of `r₁` moved by 1 ulp … 1e-3 relative / 1e-8 absolute across a pixel boundary of the
+source, at magnitudes 1e-6 … 1e9. -/
+theorem cache_key_exact_needed (w : World) (hw : w.wf) (hit : ArrayEntry → Req → Bool)
+    (r₁ r₂ : Req) (id : Nat) (a₁ : Arr)
+    (hc₁ : r₁.cacheId = some id) (hc₂ : r₂.cacheId = some id)
+    (h₁ : frbUncached w r₁ = .ok a₁) (hv₂ : boundsValid r₂.bounds = true)
+    (hne : frbUncached w r₂ ≠ .ok a₁)
+    (hhit : hit (storedEntry w r₁ a₁) r₂ = true) :
+    runReqsWith hit w .empty [r₁, r₂] = [.ok a₁, .ok a₁] ∧
+      runReqsWith hit w .empty [r₁, r₂] ≠ [r₁, r₂].map (frbUncached w) := by
+  have hst := runReqsWith_stale hw hit hc₁ hc₂ h₁ hv₂ hhit
+  refine ⟨hst, ?_⟩
+  rw [hst]
+  intro h
+  simp only [List.map_cons, List.map_nil, List.cons.injEq, and_true] at h
+  exact hne h.2.symm
+
+/-- The history runner with a parametric hit test, instantiated with the coded test, is the model
+the driver runs (`runOps true` on request-only histories). -/
+theorem hit_test_as_coded (w : World) (c : Caches) (rs : List Req) :
+    runReqsWith ArrayEntry.matches w c rs = runOps true w c (rs.map Op.req) :=
+  runReqsWith_matches w rs c
+
 /-! ## `get_sliced_data`: slices → bounds -/
 
 /-- The bounds `get_sliced_data` builds from a slice (a view, or an `AggregateSlice`) sample exactly
@@ -266,6 +299,41 @@ theorem data_changed_in_place_stale :
        .req ⟨0, [.scalar 2, .range 0 1 2], 0, .comp 0 0, true, cid⟩]
     (runOps true f15World .empty (ops (some 0))).map cells = [[.num 14, .num 15], [.num 14, .num 15]] ∧
     (runOps false f15World .empty (ops (some 0))).map cells = [[.num 14, .num 15], [.num 7, .num 8]] := by
+  decide +kernel
+
+/-- a 3-pixel source whose pixel frame is the reference frame shifted by a Julian date: the boundary
+between source pixels 1 and 2 lies at reference coordinate 2459000.5 -/
+def keyWorld : World :=
+  { datasets := [⟨[2], [[10, 11]]⟩, ⟨[3], [[100, 101, 102]]⟩]
+    deriv := fun t s _ => if t = 0 ∧ s = 1 then .via [1] (3 / 2 - 4918001 / 2) [.pixel 0] else .missing
+    states := fun _ => .gt 1 0 0 }
+
+/-- the sample at `2459000.5 + k·2⁻²⁰` (≈ 1e-6 days) -/
+def keyReq (k : Int) (cid : Option Nat) : Req :=
+  ⟨1, [.scalar (4918001 / 2 + (k : Rat) / 1048576)], 0, .comp 1 0, true, cid⟩
+
+/-- **An `np.allclose` key is stale** (instance of `cache_key_exact_needed`, the seeded-change class of
+round 2): with the bounds of the hash tuple compared by `|a − b| ≤ 1e-8 + 1e-5·|b|`, moving the
+sample from `2459000.5 − 2⁻²⁰` to `2459000.5 + 2⁻²⁰` — across the boundary between two source pixels —
+under the same cache id returns the old pixel (101) instead of 102; the coded (exact) test does not. -/
+theorem allclose_bounds_stale :
+    (runReqsWith (ArrayEntry.closeMatches (1 / 100000000) (1 / 100000)) keyWorld .empty
+      [keyReq (-1) (some 0), keyReq 1 (some 0)]).map cells = [[.num 101], [.num 101]] ∧
+    (runReqsWith ArrayEntry.matches keyWorld .empty
+      [keyReq (-1) (some 0), keyReq 1 (some 0)]).map cells = [[.num 101], [.num 102]] ∧
+    [keyReq (-1) none, keyReq 1 none].map (fun r => cells (frbUncached keyWorld r)) = [[.num 101], [.num 102]] := by
+  decide +kernel
+
+example : keyWorld.wf := fun _ _ _ => by unfold keyWorld; dsimp only; split <;> rfl
+
+/-- the hypotheses of `cache_key_exact_needed` are met by the `np.allclose` test on `keyWorld` -/
+example :
+    (frbUncached keyWorld (keyReq (-1) (some 0))).toOption = some ⟨[], [.num 101]⟩ ∧
+    (frbUncached keyWorld (keyReq 1 (some 0))).toOption ≠ some ⟨[], [.num 101]⟩ ∧
+    boundsValid (keyReq 1 (some 0)).bounds = true ∧
+    ArrayEntry.closeMatches (1 / 100000000) (1 / 100000)
+      (storedEntry keyWorld (keyReq (-1) (some 0)) ⟨[], [.num 101]⟩) (keyReq 1 (some 0)) = true ∧
+    ArrayEntry.matches (storedEntry keyWorld (keyReq (-1) (some 0)) ⟨[], [.num 101]⟩) (keyReq 1 (some 0)) = false := by
   decide +kernel
 
 /-- **F16 (fixed).** `slice_to_bound` of the pinned tree on `slice(None, None, -1)` over 3 rows:
